@@ -13,6 +13,9 @@
      KLoad k f e   what a load of field f (0 = plain dereference) through the pointer held by
                    key k yields, at effect-epoch e (number of stores / external calls so far)
      KGlobal g     the value of a file-scope variable
+     KEq a b       1 if the values held by keys a and b are equal, else 0 (a comparison of two
+                   unknowns is an observation of its own; the worlds of interest satisfy
+                   w (KEq a b) = 1 <-> w a = w b, and every theorem holds for all worlds)
    A world is a function  skey -> N.  The semantics is given in two stages, both executable:
      entry_tree  executes a body *symbolically* (values are terms over keys), forking at every
                  decision, and yields a decision tree whose leaves carry (return value, trace);
@@ -71,7 +74,8 @@ Definition B_SET : N := 4.          (* asm_set_self_tests_status *)
 
 Inductive skey :=
 | KArg (i : N) | KStatus | KGlobal (g : N) | KExt (f n : N)
-| KMemcmp (a : skey) (oa : N) (b : skey) (ob : N) (n : N) | KLoad (k : skey) (f e : N).
+| KMemcmp (a : skey) (oa : N) (b : skey) (ob : N) (n : N) | KLoad (k : skey) (f e : N)
+| KEq (a b : skey).
 
 Inductive sval :=
 | SConst (n : N) | SKey (k : skey)
@@ -155,6 +159,12 @@ Definition is_eqne (op : cmpop) : bool := match op with CEq | CNe => true | _ =>
 Definition mk_cmp (op : cmpop) (t : cty) (a b : sval) : sval :=
   match a, b with
   | SConst x, SConst y => SConst (b2n (cmp_b op t x y))
+  | SKey k1, SKey k2 =>
+      match op with
+      | CEq => SCmp CNe (CInt 32 true) (SKey (KEq k1 k2)) (SConst 0)
+      | CNe => SCmp CEq (CInt 32 true) (SKey (KEq k1 k2)) (SConst 0)
+      | _ => SCmp op t a b
+      end
   | SConst _, _ => SCmp (flip op) t b a            (* constant to the right *)
   | SCast f t' v, SConst 0 =>
       (* a non-truncating cast is zero iff its operand is *)
@@ -202,6 +212,7 @@ Fixpoint skey_eqb (a b : skey) : bool :=
   | KMemcmp a1 o1 b1 p1 n, KMemcmp a2 o2 b2 p2 m =>
       skey_eqb a1 a2 && (o1 =? o2) && skey_eqb b1 b2 && (p1 =? p2) && (n =? m)
   | KLoad k f e, KLoad k' f' e' => skey_eqb k k' && (f =? f') && (e =? e')
+  | KEq a1 b1, KEq a2 b2 => skey_eqb a1 a2 && skey_eqb b1 b2
   | _, _ => false
   end.
 
